@@ -574,13 +574,21 @@ impl AtomicPosition {
         // convert into capacity now, so we're saving it for later. We do this by
         // subtracting this from `elapsed` before storing it into `self.prev`.
         let (new, remainder) = ((diff / INTERVAL), (diff % INTERVAL));
-        // We add `new` to `capacity`, subtract one for returning `true` from here,
-        // then make sure it does not exceed a maximum of `MAX_BURST`.
-        capacity = Ord::min(MAX_BURST as u128, (capacity as u128) + (new as u128) - 1) as u8;
+        // We add `new` to `capacity` without exceeding a maximum of `MAX_BURST`, then
+        // subtract one for returning `true` from here.
+        let refilled = (capacity as u128) + (new as u128);
+        let prev = if refilled >= MAX_BURST as u128 {
+            // The bucket is full: time beyond that is not saved up for later.
+            capacity = MAX_BURST - 1;
+            elapsed
+        } else {
+            capacity = (refilled - 1) as u8;
+            elapsed - remainder
+        };
 
         // Then, we just store `capacity` and `prev` atomically for the next iteration
         self.capacity.store(capacity, Ordering::Release);
-        self.prev.store(elapsed - remainder, Ordering::Release);
+        self.prev.store(prev, Ordering::Release);
         true
     }
 
